@@ -36,6 +36,9 @@ def run(plan, sched_values=None, sched_seed=0):
     h = run_server_scenario(plan, sched_values, sched_seed)
     f = oracles.Facts(h)
     v = oracles.check_delivery(h, f)
+    # "... or on polling again if it [the upgrade] fails"
+    v += [x for x in oracles.check_upgrade(h, f)
+          if x['clause'] == 'failed-upgrade-harmless']
     pr = {}
     nontrivial = False
     for rec in h.app_sends:
